@@ -324,6 +324,25 @@ Proof.
   - destruct (step s l); [apply IH; exact H2|reflexivity].
 Qed.
 
+Lemma respects_app : forall g tr1 tr2 s,
+  respects g s (tr1 ++ tr2) ->
+  respects g s tr1 /\ forall s1, run s tr1 = Some s1 -> respects g s1 tr2.
+Proof.
+  induction tr1 as [|l tr1 IH]; intros tr2 s H; cbn in *.
+  - split; [exact I|]. intros s1 [= <-]. exact H.
+  - destruct H as [H1 H2]. destruct (step s l) as [s0|] eqn:Hs.
+    + destruct (IH tr2 s0 H2) as [A B]. split; [split; assumption|]. exact B.
+    + split; [split; [assumption|exact I]|]. intros s1 Hc. discriminate.
+Qed.
+
+Lemma run_app : forall tr1 tr2 s s',
+  run s (tr1 ++ tr2) = Some s' -> exists s1, run s tr1 = Some s1 /\ run s1 tr2 = Some s'.
+Proof.
+  induction tr1 as [|l tr1 IH]; intros tr2 s s' H; cbn in *.
+  - exists s. split; [reflexivity|exact H].
+  - destruct (step s l) as [s0|]; [|discriminate]. apply IH. exact H.
+Qed.
+
 Lemma respects_app_intro : forall g tr1 tr2 s,
   respects g s tr1 -> (forall s1, run s tr1 = Some s1 -> respects g s1 tr2) ->
   respects g s (tr1 ++ tr2).
@@ -360,5 +379,64 @@ Proof.
   - apply no_expire_respected. unfold misuse_trace. cbn.
     intros H. repeat (destruct H as [H|H]; [discriminate H|]). exact H.
   - intros HW. apply respectsb_complete_wf in HW. vm_compute in HW. discriminate.
+  - vm_compute in Hr. injection Hr as <-. vm_compute. reflexivity.
+Qed.
+
+(** ** why the lease premise must cover an Unlock in progress
+
+    Unlock deletes the record by key, not by version.  If the lease of the record runs out after
+    Unlock has reset the counter but before its Delete reaches the storage (a delayed Delete), the
+    Delete removes the record of whoever acquired in between.  [lease_held_only] is the weaker
+    reading of the premise (only held Lockers protect their record); under it exclusion fails. *)
+
+Definition lease_held_only (s : state) (l : label) : Prop :=
+  match l with
+  | Expire => forall v tn, rec s = Some (v, tn) -> ~ exists L, held (lk s L) = Some tn
+  | _ => True
+  end.
+
+Definition late_delete_trace : list label :=
+  [ Invoke 0 (OLock 0); TakeToken 0; CheckCtx 0; StCreate 0 FOk; Return 0 RUnit;
+    Invoke 0 (OUnlock 0);                 (* counter reset, timer cancelled, Delete not yet applied *)
+    Expire;                               (* the lease of tenure 1 runs out *)
+    Invoke 1 (OLock 1); TakeToken 1; CheckCtx 1; StCreate 1 FOk; Return 1 RUnit;   (* Locker 1 holds *)
+    StDelete 0 FOk;                       (* the late Delete removes Locker 1's record *)
+    Invoke 2 (OLock 2); TakeToken 2; CheckCtx 2; StCreate 2 FOk; Return 2 RUnit ]. (* Locker 2 holds too *)
+
+Lemma late_delete_breaks_exclusion :
+  exists s, run (init (fun _ => 0)) late_delete_trace = Some s
+            /\ wf_programs (fun _ => 0) late_delete_trace
+            /\ respects lease_held_only (init (fun _ => 0)) late_delete_trace
+            /\ ~ leases_respected (fun _ => 0) late_delete_trace
+            /\ holders_in s [0; 1; 2] = 2.
+Proof.
+  destruct (run (init (fun _ => 0)) late_delete_trace) as [s|] eqn:Hr; [|vm_compute in Hr; discriminate].
+  exists s. split; [reflexivity|]. split; [|split; [|split]].
+  - apply wf_programs_b. vm_compute. reflexivity.
+  - change late_delete_trace with
+      ([Invoke 0 (OLock 0); TakeToken 0; CheckCtx 0; StCreate 0 FOk; Return 0 RUnit; Invoke 0 (OUnlock 0)]
+       ++ Expire :: [Invoke 1 (OLock 1); TakeToken 1; CheckCtx 1; StCreate 1 FOk; Return 1 RUnit;
+                     StDelete 0 FOk;
+                     Invoke 2 (OLock 2); TakeToken 2; CheckCtx 2; StCreate 2 FOk; Return 2 RUnit]).
+    apply respects_app_intro.
+    + cbn. repeat split.
+    + intros s1 Hs1. vm_compute in Hs1. injection Hs1 as <-. cbn [respects]. split.
+      * cbn [lease_held_only]. intros v tn Hrec [L H].
+        vm_compute in H. destruct L as [|L]; discriminate.
+      * match goal with |- match ?x with _ => _ end => destruct x as [s2|]; [|exact I] end.
+        cbn. repeat match goal with |- context [match ?x with _ => _ end] => destruct x end; repeat split.
+  - intros HL. unfold leases_respected in HL.
+    change late_delete_trace with
+      ([Invoke 0 (OLock 0); TakeToken 0; CheckCtx 0; StCreate 0 FOk; Return 0 RUnit; Invoke 0 (OUnlock 0)]
+       ++ Expire :: [Invoke 1 (OLock 1); TakeToken 1; CheckCtx 1; StCreate 1 FOk; Return 1 RUnit;
+                     StDelete 0 FOk;
+                     Invoke 2 (OLock 2); TakeToken 2; CheckCtx 2; StCreate 2 FOk; Return 2 RUnit]) in HL.
+    apply respects_app in HL. destruct HL as [_ HL].
+    match type of HL with forall s1, run ?s0 ?tr1 = Some s1 -> _ =>
+      destruct (run s0 tr1) as [s1|] eqn:Hr1; [|vm_compute in Hr1; discriminate] end.
+    specialize (HL s1 eq_refl). vm_compute in Hr1. injection Hr1 as <-.
+    cbn [respects] in HL. destruct HL as [HL _]. cbn [lease_ok] in HL.
+    apply (HL 1%N 1%N); [vm_compute; reflexivity|].
+    right. exists 0, 0. vm_compute. reflexivity.
   - vm_compute in Hr. injection Hr as <-. vm_compute. reflexivity.
 Qed.
